@@ -516,8 +516,20 @@ var rR13 = RuleRef{Name: "R13", Doc: "reply-kind provenance: line-framed reply c
 	}
 	pc := &provCtx{c: c, memo: map[*ssa.Function]int{}}
 	nSites := 0
-	for _, pk := range []string{"memdb", "server"} {
+	// the decoding direction (the request parser rebuilding what a client sent line by line) is not a reply path
+	decoding := map[*ssa.Function]bool{}
+	if parse := c.P.Func("resp", "parse"); parse != nil {
+		for f := range c.reachableFirstParty([]*ssa.Function{parse}) {
+			if pkgRel(f) == "resp" {
+				decoding[f] = true
+			}
+		}
+	}
+	for _, pk := range []string{"memdb", "server", "resp"} {
 		for _, fn := range c.P.allFuncs(pk) {
+			if byFn[fn] != nil || byFn[origin(fn)] != nil || decoding[fn] {
+				continue // the constructors themselves
+			}
 			ord := map[string]int{}
 			for _, b := range fn.Blocks {
 				for _, in := range b.Instrs {
